@@ -1,6 +1,6 @@
 (* C05 — proofs, part 7: the combined statements of Properties_C05.v that are conjunctions of earlier lemmas. *)
 From Coq Require Import List Arith Bool PeanoNat NArith Permutation Sorted.
-From DuneV Require Import C05_Model C05_Spec C05_Proofs C05_Proofs_Comm C05_Proofs_Deliv C05_Proofs_Glue C05_Proofs_Remote C05_Proofs_Phase.
+From DuneV Require Import C05_Model C05_Spec C05_Proofs C05_Proofs_Comm C05_Proofs_Deliv C05_Proofs_Glue C05_Proofs_Remote C05_Proofs_Phase C05_Proofs_Dt.
 Import ListNotations.
 
 Lemma PM_pairing : forall src dst sl rl, Forall2 c05_mirror sl rl ->
@@ -75,4 +75,12 @@ Proof.
   - intros [|[|p]]; simpl; repeat constructor; intros [].
   - intros [|[|p]] [|[|q]]; vm_compute; repeat constructor.
   - vm_compute. reflexivity.
+Qed.
+
+Lemma PM_interface_recv_is_spec : forall ign src dst S T, NoDup (map c05_ie_g S) -> NoDup (map c05_ie_g T) ->
+  map c05_re_l (c05_keep false src dst (c05_join (c05_published ign (c05_sort T)) (c05_published ign (c05_sort S)))) =
+  map (fun ee => c05_ie_l (snd ee)) (c05_spec_pairs ign (c05_contains src) (c05_contains dst) (c05_sort S) (c05_sort T)).
+Proof.
+  intros ign src dst S T HS HT. rewrite P_interface_doc_recv.
+  rewrite (P_pairs_agree ign (c05_contains src) (c05_contains dst) (c05_sort S) (c05_sort T)); [reflexivity| |]; apply P_sort_sorted; assumption.
 Qed.
